@@ -17,6 +17,7 @@ func init() {
 
 func checkC03(c *Ctx) {
 	l := c.L
+	checkProvableValues(c, "DOM-provable-value")
 	c.rule("PASS-root-record", "existence and identity of a version come from its stored root record, not from the node cache or the working tree", 2)
 	checkRootRecord(c, "PASS-root-record")
 	c.rule("FORMAT-ics23-ops", "ics23 leaf/inner ops are the hash pre-image with a hole at the child", 4)
@@ -387,4 +388,30 @@ func dedupe(in []string) []string {
 		}
 	}
 	return out
+}
+
+// checkProvableValues (C03): ics23's existence-proof check refuses a leaf with
+// an empty value.  "Every present key has a membership proof that verifies"
+// therefore needs every storable value to be non-empty: the write API has to
+// refuse a zero-length value the way it refuses nil (or the proof layer must
+// not use a specification that refuses it).  Decided on MutableTree.set: an
+// emptiness test of the value with an error exit before the first effect.
+func checkProvableValues(c *Ctx, rule string) {
+	l := c.L
+	c.rule(rule, "every value the write API accepts can be proven under the ICS-23 IAVL spec (non-empty)", 1)
+	set := l.Func("", "*MutableTree.set")
+	if set == nil || len(set.Params) < 3 {
+		c.anchorMissing(rule, "MutableTree.set")
+		return
+	}
+	val := set.Params[2]
+	gs := nonEmptyGuards(set, func(v ssa.Value) bool { return v == ssa.Value(val) })
+	ok := false
+	for _, g := range gs {
+		if okk, _ := failEdgeLeavesWithError(set, g, nil); okk {
+			ok = true
+		}
+	}
+	c.decide(rule, "MutableTree.set refuses a value that has no ICS-23 membership proof", l.pos(set.Pos()), ok, "a zero-length value is refused with an error",
+		"Set accepts an empty (non-nil) value; the ICS-23 verifier refuses an existence proof whose value is empty, so a present key with an empty value has no verifying membership proof (and is a neighbour no non-membership proof can use)")
 }
